@@ -52,6 +52,8 @@ tree3 = { usesilent ~ seq ~ rep }
 tree4 = { tree3 ~ (tree3 | choice)? }
 marker = { &b }
 optempty = { a ~ marker? ~ b? ~ (marker | "c")? }
+optpush_atomic = @{ PUSH(a) ~ (PUSH(b) ~ "c")? ~ b ~ PEEK? }
+optpush = { PUSH(a) ~ (PUSH(b) ~ "c")? ~ b ~ PEEK? ~ (PUSH(a) ~ a)* ~ POP? }
 "# } }
 
 mod p {
@@ -99,6 +101,8 @@ tree3 = { usesilent ~ seq ~ rep }
 tree4 = { tree3 ~ (tree3 | choice)? }
 marker = { &b }
 optempty = { a ~ marker? ~ b? ~ (marker | "c")? }
+optpush_atomic = @{ PUSH(a) ~ (PUSH(b) ~ "c")? ~ b ~ PEEK? }
+optpush = { PUSH(a) ~ (PUSH(b) ~ "c")? ~ b ~ PEEK? ~ (PUSH(a) ~ a)* ~ POP? }
 "#]
     pub struct P;
 }
@@ -148,6 +152,8 @@ tree3 = { usesilent ~ seq ~ rep }
 tree4 = { tree3 ~ (tree3 | choice)? }
 marker = { &b }
 optempty = { a ~ marker? ~ b? ~ (marker | "c")? }
+optpush_atomic = @{ PUSH(a) ~ (PUSH(b) ~ "c")? ~ b ~ PEEK? }
+optpush = { PUSH(a) ~ (PUSH(b) ~ "c")? ~ b ~ PEEK? ~ (PUSH(a) ~ a)* ~ POP? }
 "#]
     pub struct T;
 }
@@ -163,7 +169,7 @@ fn from_thin(t: &ThinToken<t::Rule>) -> Tree {
 }
 /// the documented difference: descendants of atomic / compound-atomic tokens are not exposed
 fn prune(t: &Tree) -> Tree {
-    let atomic = ["seq_atomic", "seq_compound", "nest", "nest2", "untilc", "atomic_via_silent", "compound_via_silent", "deep"].contains(&t.rule.as_str());
+    let atomic = ["seq_atomic", "seq_compound", "nest", "nest2", "untilc", "atomic_via_silent", "compound_via_silent", "deep", "optpush_atomic"].contains(&t.rule.as_str());
     Tree { rule: t.rule.clone(), start: t.start, end: t.end, children: if atomic { vec![] } else { t.children.iter().map(prune).collect() } }
 }
 fn shift(t: &Tree, d: usize) -> Tree { Tree { rule: t.rule.clone(), start: t.start + d, end: t.end + d, children: t.children.iter().map(|c| shift(c, d)).collect() } }
@@ -179,7 +185,7 @@ fn skip_trailing(s: &str, mut p: usize) -> usize {
 fn rule_matches_at(name: &str, s: &str, loc: usize) -> Option<bool> {
     let pos = Position::new(s, loc)?;
     macro_rules! d { ($($r:ident),*) => { match name { $( stringify!($r) => Some(t::pairs::$r::try_check_partial(pos).is_ok()), )* "EOI" => Some(loc == s.len()), _ => None } } }
-    d!(builtin, stk2, pushskip, deep, deep_n, deep_na, a, b, seq, seq_atomic, seq_compound, seq_nonatomic, nest, nest2, rep, rep_n, choice, opt, pred, usesilent, stack, insens, nl, soi, anyrule, atomic_via_silent, compound_via_silent, insens2, untilc, polar, notsoi, eoipred, polar2, tree3, tree4, marker, optempty)
+    d!(builtin, stk2, pushskip, deep, deep_n, deep_na, a, b, seq, seq_atomic, seq_compound, seq_nonatomic, nest, nest2, rep, rep_n, choice, opt, pred, usesilent, stack, insens, nl, soi, anyrule, atomic_via_silent, compound_via_silent, insens2, untilc, polar, notsoi, eoipred, polar2, tree3, tree4, marker, optempty, optpush_atomic, optpush)
 }
 /// C10 truthfulness: every rule listed as expected fails at the location, every rule listed as unexpected matches there
 fn truthful(msg: &str, s: &str, loc: usize) -> Result<(), String> {
@@ -348,6 +354,41 @@ macro_rules! check_sub {
     }};
 }
 
+/// C09 / C10 on sub-inputs: the error location of a failed entry point lies within the given range [a, b] on a character boundary
+fn loc_in<R: pest_typed::RuleType>(e: &pest_typed::error::Error<R>, s: &str, a: usize, b: usize) -> Result<(), String> {
+    let loc = match e.location { pest::error::InputLocation::Pos(p) => p, pest::error::InputLocation::Span((p, _)) => p };
+    if !(a <= loc && loc <= b && s.is_char_boundary(loc)) { return Err(format!("error location {} outside the given range {}..{} (or off a boundary)", loc, a, b)); }
+    Ok(())
+}
+/// entry points of a rule on every sub-range: verdicts / offsets agree with a fresh copy, error locations stay inside the range.
+/// `$path` is `pairs` for ordinary rules and `rules` for silent ones (no token of their own: no tree comparison).
+macro_rules! check_sub_entry {
+    ($path:ident, $name:ident, $s:expr, $cases:expr) => {{
+        let s: &str = $s;
+        let bs: Vec<usize> = (0..=s.len()).filter(|&i| s.is_char_boundary(i)).collect();
+        for &a in &bs { for &b in &bs { if a <= b {
+            *$cases += 1;
+            let key = || format!("entry={}::{},input={:?},span={}..{}", stringify!($path), stringify!($name), s, a, b);
+            let copy: String = s[a..b].to_owned();
+            let sp = Span::new(s, a, b).unwrap();
+            let c_part = t::$path::$name::try_parse_partial(copy.as_str()).ok().map(|(p, _)| p.pos() + a);
+            let c_full = t::$path::$name::try_parse(copy.as_str()).is_ok();
+            match t::$path::$name::try_parse_partial(sp) { Ok((p, _)) => if Some(p.byte_offset()) != c_part { return Err(format!("{} detail=C08: try_parse_partial on Span stops at {} vs copy {:?}", key(), p.byte_offset(), c_part)); },
+                Err(e) => { if c_part.is_some() { return Err(format!("{} detail=C08: try_parse_partial rejects the Span, accepts the copy", key())); } if let Err(w) = loc_in(&e, s, a, b) { return Err(format!("{} detail=C09: try_parse_partial: {}", key(), w)); } } }
+            match t::$path::$name::try_check_partial(sp) { Ok(p) => if Some(p.byte_offset()) != c_part { return Err(format!("{} detail=C03/C08: try_check_partial on Span stops at {} vs copy {:?}", key(), p.byte_offset(), c_part)); },
+                Err(e) => { if c_part.is_some() { return Err(format!("{} detail=C03/C08: try_check_partial rejects the Span, the copy parses", key())); } if let Err(w) = loc_in(&e, s, a, b) { return Err(format!("{} detail=C09: try_check_partial: {}", key(), w)); } } }
+            match t::$path::$name::try_parse(sp) { Ok(_) => if !c_full { return Err(format!("{} detail=C08: try_parse accepts the Span, rejects the copy", key())); },
+                Err(e) => { if c_full { return Err(format!("{} detail=C08: try_parse rejects the Span, accepts the copy", key())); } if let Err(w) = loc_in(&e, s, a, b) { return Err(format!("{} detail=C09: try_parse: {}", key(), w)); } } }
+            match t::$path::$name::try_check(sp) { Ok(()) => if !c_full { return Err(format!("{} detail=C03/C08: try_check accepts the Span, the copy does not parse", key())); },
+                Err(e) => { if c_full { return Err(format!("{} detail=C03/C08: try_check rejects the Span, the copy parses", key())); } if let Err(w) = loc_in(&e, s, a, b) { return Err(format!("{} detail=C09: try_check: {}", key(), w)); } } }
+            if b == s.len() {
+                let ps = Position::new(s, a).unwrap();
+                if let Err(e) = t::$path::$name::try_parse(ps) { if let Err(w) = loc_in(&e, s, a, s.len()) { return Err(format!("{} detail=C09: try_parse on Position: {}", key(), w)); } }
+                if let Err(e) = t::$path::$name::try_check_partial(ps) { if let Err(w) = loc_in(&e, s, a, s.len()) { return Err(format!("{} detail=C09: try_check_partial on Position: {}", key(), w)); } }
+            }
+        } } }
+    }};
+}
 fn strings(alpha: &[&str], max: usize) -> Vec<String> {
     let mut out = vec![String::new()];
     let mut cur = vec![String::new()];
@@ -398,6 +439,8 @@ fn all_rules(s: &str, cases: &mut u64) -> Result<(), String> {
     check_rule!(tree4, false, s, cases);
     check_rule!(marker, false, s, cases);
     check_rule!(optempty, false, s, cases);
+    check_rule!(optpush_atomic, true, s, cases);
+    check_rule!(optpush, false, s, cases);
     check_tree!(a, s, cases); check_tree!(seq, s, cases); check_tree!(seq_nonatomic, s, cases); check_tree!(rep, s, cases); check_tree!(rep_n, s, cases);
     check_tree!(choice, s, cases); check_tree!(opt, s, cases); check_tree!(pred, s, cases); check_tree!(usesilent, s, cases); check_tree!(stack, s, cases);
     check_tree!(insens, s, cases); check_tree!(nl, s, cases); check_tree!(soi, s, cases); check_tree!(eoipred, s, cases);
@@ -420,6 +463,12 @@ fn all_sub(s: &str, cases: &mut u64) -> Result<(), String> {
     check_sub!(eoipred, s, cases);
     check_sub!(seq_atomic, s, cases);
     check_sub!(compound_via_silent, s, cases);
+    check_sub_entry!(rules, silent, s, cases);
+    check_sub_entry!(rules, silent_ref, s, cases);
+    check_sub_entry!(rules, deep_s, s, cases);
+    check_sub_entry!(pairs, seq_compound, s, cases);
+    check_sub_entry!(pairs, pred, s, cases);
+    check_sub_entry!(pairs, optpush_atomic, s, cases);
     Ok(())
 }
 
@@ -435,7 +484,7 @@ fn nb_gen_vs_pest() {
             Err(_) => { println!("NB-RESULT name=nb_gen_vs_pest status=fail cases={} key=input={:?} detail=C09: panic", cases, s); return; }
         }
     }
-    println!("NB-RESULT name=nb_gen_vs_pest status=ok cases={} key=- detail=36 rules x all strings<={} chars over 3 alphabets: verdict/offset/tree vs pest, check==parse incl. error text, full parse, error location, traversal helpers", cases, l);
+    println!("NB-RESULT name=nb_gen_vs_pest status=ok cases={} key=- detail=38 rules x all strings<={} chars over 3 alphabets: verdict/offset/tree vs pest, check==parse incl. error text, full parse, error location, traversal helpers", cases, l);
 }
 #[test]
 fn nb_gen_subinput() {
@@ -449,7 +498,7 @@ fn nb_gen_subinput() {
             Err(_) => { println!("NB-RESULT name=nb_gen_subinput status=fail cases={} key=input={:?} detail=C09: panic", cases, s); return; }
         }
     }
-    println!("NB-RESULT name=nb_gen_subinput status=ok cases={} key=- detail=15 rules x all strings<={} chars over 3 alphabets x all sub-ranges: Span / Position sub-input vs fresh copy (partial and full, parse and check, offsets and trees)", cases, l);
+    println!("NB-RESULT name=nb_gen_subinput status=ok cases={} key=- detail=21 entry rules (3 of them silent) x all strings<={} chars over 3 alphabets x all sub-ranges: Span / Position sub-input vs fresh copy (partial and full, parse and check, offsets and trees), error locations inside the given range", cases, l);
 }
 
 
@@ -677,4 +726,151 @@ fn nb_gen_skip_only() {
         }
     }
     println!("NB-RESULT name=nb_gen_skip_only status=ok cases={} key=- detail=grammars defining ONLY a non-silent WHITESPACE = {{\" \"+}} / ONLY a non-silent COMMENT = {{\"%\"+}}: 4 rules each x all strings<={} chars over {{a,b,comma,blank}}: verdict/offset/pair tree vs pest, check==parse", cases, l);
+}
+
+// ---- grammar 6: the generator's UNOPTIMIZED path (`#[pest_optimizer = false]`, generator/src/graph/rule.rs — a mirror of the
+// default path in optimized_rule.rs) on the atomicity / skip / stack constructs; reference = pest on the same grammar.
+// `e+` is written `e ~ e*` here: with the optimizer off `e+` stops before a trailing skip that pest consumes (finding D8, kept in its
+// own test below so that it cannot hide any other disagreement) ----------------
+mod p6 {
+    #[derive(pest_derive::Parser)]
+    #[grammar_inline = r#"
+WHITESPACE = _{ " " }
+COMMENT = _{ "/*" ~ (!"*/" ~ ANY)* ~ "*/" }
+a = { "a" }
+b = { "b" }
+seq = { a ~ b ~ a }
+seq_atomic = @{ a ~ b }
+seq_compound = ${ a ~ b ~ seq? }
+seq_nonatomic = !{ a ~ b }
+nest = @{ a ~ seq_nonatomic ~ b }
+nest2 = ${ a ~ seq_nonatomic ~ seq_atomic? }
+via_normal = @{ a ~ mid ~ b }
+mid = { seq_nonatomic ~ a? }
+silent = _{ a ~ b }
+atomic_via_silent = @{ b ~ silent }
+rep = { a* ~ b ~ b* }
+opt = { a? ~ b? ~ "c" }
+choice = { seq | a ~ a | b }
+pred = { &a ~ !(a ~ a) ~ (a | b) ~ (a | b)* }
+stack = { PUSH(a | b) ~ (POP ~ b | PEEK ~ DROP ~ a) }
+stk2 = { PUSH(a | b) ~ PUSH(b)? ~ (PEEK[-1..] ~ PEEK_ALL | PEEK[0..1] ~ POP_ALL) ~ a? }
+insens = { ^"ab" ~ ('a'..'b')* }
+"#]
+    pub struct P;
+}
+mod t6 {
+    use pest_typed_derive::TypedParser;
+    #[derive(TypedParser)]
+    #[grammar_inline = r#"
+WHITESPACE = _{ " " }
+COMMENT = _{ "/*" ~ (!"*/" ~ ANY)* ~ "*/" }
+a = { "a" }
+b = { "b" }
+seq = { a ~ b ~ a }
+seq_atomic = @{ a ~ b }
+seq_compound = ${ a ~ b ~ seq? }
+seq_nonatomic = !{ a ~ b }
+nest = @{ a ~ seq_nonatomic ~ b }
+nest2 = ${ a ~ seq_nonatomic ~ seq_atomic? }
+via_normal = @{ a ~ mid ~ b }
+mid = { seq_nonatomic ~ a? }
+silent = _{ a ~ b }
+atomic_via_silent = @{ b ~ silent }
+rep = { a* ~ b ~ b* }
+opt = { a? ~ b? ~ "c" }
+choice = { seq | a ~ a | b }
+pred = { &a ~ !(a ~ a) ~ (a | b) ~ (a | b)* }
+stack = { PUSH(a | b) ~ (POP ~ b | PEEK ~ DROP ~ a) }
+stk2 = { PUSH(a | b) ~ PUSH(b)? ~ (PEEK[-1..] ~ PEEK_ALL | PEEK[0..1] ~ POP_ALL) ~ a? }
+insens = { ^"ab" ~ ('a'..'b')* }
+"#]
+    #[pest_optimizer = false]
+    pub struct T;
+}
+macro_rules! check_rule6 {
+    ($name:ident, $s:expr, $cases:expr) => {{
+        let s: &str = $s;
+        *$cases += 1;
+        let key = || format!("grammar6(pest_optimizer=false),rule={},input={:?}", stringify!($name), s);
+        fn fp(p: pest::iterators::Pair<'_, p6::Rule>) -> Tree { let sp = p.as_span(); Tree { rule: format!("{:?}", p.as_rule()), start: sp.start(), end: sp.end(), children: p.into_inner().map(fp).collect() } }
+        fn ft(t: &ThinToken<t6::Rule>) -> Tree { Tree { rule: format!("{:?}", t.rule), start: t.start, end: t.end, children: t.children.iter().map(ft).collect() } }
+        fn pr(t: &Tree) -> Tree { let atomic = ["seq_atomic", "seq_compound", "nest", "nest2", "via_normal", "atomic_via_silent"].contains(&t.rule.as_str()); Tree { rule: t.rule.clone(), start: t.start, end: t.end, children: if atomic { vec![] } else { t.children.iter().map(pr).collect() } } }
+        let pest_res: Option<(usize, Tree)> = match p6::P::parse(p6::Rule::$name, s) { Ok(mut pairs) => { let top = pairs.next().unwrap(); Some((top.as_span().end(), fp(top))) } Err(_) => None };
+        let tp = t6::pairs::$name::try_parse_partial(s);
+        let tc = t6::pairs::$name::try_check_partial(s);
+        let typed_res = match &tp { Ok((pos, node)) => Some((pos.pos(), ft(&node.as_thin_token()))), Err(_) => None };
+        if pest_res.as_ref().map(|x| x.0) != typed_res.as_ref().map(|x| x.0) { return Err(format!("{} detail=C01/C07: pest {:?} vs typed {:?} (verdict/offset)", key(), pest_res.as_ref().map(|x| x.0), typed_res.as_ref().map(|x| x.0))); }
+        if tc.as_ref().ok().map(|p| p.pos()) != typed_res.as_ref().map(|x| x.0) { return Err(format!("{} detail=C03: check and parse disagree", key())); }
+        if let (Some((_, pt)), Some((_, tt))) = (&pest_res, &typed_res) {
+            if pr(pt) != *tt { return Err(format!("{} detail=C02: pair tree differs: pest(pruned) {:?} vs typed {:?}", key(), pr(pt), tt)); }
+        }
+    }};
+}
+fn all_rules6(s: &str, cases: &mut u64) -> Result<(), String> {
+    check_rule6!(seq, s, cases); check_rule6!(seq_atomic, s, cases); check_rule6!(seq_compound, s, cases); check_rule6!(seq_nonatomic, s, cases);
+    check_rule6!(nest, s, cases); check_rule6!(nest2, s, cases); check_rule6!(via_normal, s, cases); check_rule6!(mid, s, cases);
+    check_rule6!(atomic_via_silent, s, cases); check_rule6!(rep, s, cases); check_rule6!(opt, s, cases); check_rule6!(choice, s, cases);
+    check_rule6!(pred, s, cases); check_rule6!(stack, s, cases); check_rule6!(stk2, s, cases); check_rule6!(insens, s, cases);
+    Ok(())
+}
+#[test]
+fn nb_gen_unoptimized() {
+    let l = bound(5);
+    let mut cases = 0u64;
+    for s in strings(&["a", "b", " ", "c", "B"], l).iter().chain(strings(&["a", "b", "/", "*", " "], l).iter()) {
+        let r = std::panic::catch_unwind(std::panic::AssertUnwindSafe(|| all_rules6(s, &mut cases)));
+        match r {
+            Ok(Ok(())) => {}
+            Ok(Err(e)) => { println!("NB-RESULT name=nb_gen_unoptimized status=fail cases={} key={}", cases, e); return; }
+            Err(_) => { println!("NB-RESULT name=nb_gen_unoptimized status=fail cases={} key=input={:?} detail=C09: panic", cases, s); return; }
+        }
+    }
+    println!("NB-RESULT name=nb_gen_unoptimized status=ok cases={} key=- detail=parser generated with pest_optimizer = false (the generator's second code path): 16 rules x all strings<={} chars over 2 alphabets: verdict/offset/pair tree vs pest, check==parse", cases, l);
+}
+
+
+// ---- finding D8: `e+` / counted repetitions with `#[pest_optimizer = false]` vs pest under implicit skipping ---------------------------
+mod p7 {
+    #[derive(pest_derive::Parser)]
+    #[grammar_inline = r#"
+WHITESPACE = _{ " " }
+a = { "a" }
+plus = { a+ }
+"#]
+    pub struct P;
+}
+mod t7 {
+    use pest_typed_derive::TypedParser;
+    #[derive(TypedParser)]
+    #[grammar_inline = r#"
+WHITESPACE = _{ " " }
+a = { "a" }
+plus = { a+ }
+"#]
+    #[pest_optimizer = false]
+    pub struct T;
+}
+#[test]
+fn nb_gen_unopt_plus() {
+    let l = bound(5);
+    let mut cases = 0u64;
+    let mut first: Option<String> = None;
+    let mut n = 0u64;
+    for s in strings(&["a", " "], l).iter() {
+        cases += 1;
+        let pe = p7::P::parse(p7::Rule::plus, s).ok().map(|mut x| x.next().unwrap().as_span().end());
+        let ty = t7::pairs::plus::try_parse_partial(s.as_str()).ok().map(|x| x.0.pos());
+        // the only tolerated class: both accept, typed stops exactly before trailing blanks that pest consumes
+        let known_class = match (pe, ty) { (Some(p), Some(t)) => t < p && s[t..p].chars().all(|c| c == ' '), _ => false };
+        if pe != ty {
+            if !known_class { println!("NB-RESULT name=nb_gen_unopt_plus status=fail cases={} key=rule=plus,input={:?} detail=C01/C07: pest {:?} vs typed(pest_optimizer=false) {:?} — NOT the known trailing-skip class", cases, s, pe, ty); return; }
+            n += 1;
+            if first.is_none() { first = Some(format!("rule=plus,input={:?}", s).replace(' ', "\u{2423}")); }   // blanks shown as U+2423: the key must not contain spaces
+        }
+    }
+    match first {
+        Some(k) => println!("NB-RESULT name=nb_gen_unopt_plus status=fail cases={} key={} detail=C01/C07: with pest_optimizer = false `a+` stops before a trailing blank that pest (which always rewrites e+ to e ~ e*) consumes; {} of {} inputs, all of this one class", cases, k, n, cases),
+        None => println!("NB-RESULT name=nb_gen_unopt_plus status=ok cases={} key=- detail=a+ with pest_optimizer = false vs pest: all strings<={} chars over {{a,blank}}", cases, l),
+    }
 }
